@@ -94,6 +94,7 @@ inductive Tok where
   | op (o : BinOp)
   | cmp (o : CmpOp)
   | lnot
+  | defined                  -- keyword `defined`
   | lparen
   | rparen
   | dot
@@ -220,6 +221,7 @@ def lexAux (sources : List String) : Nat → List Char → Option Char → Optio
         | some p =>
           if p.2 == "TRUE" || p.2 == "YES" then .num 1
           else if p.2 == "FALSE" || p.2 == "NO" then .num 0
+          else if p.2 == "DEFINED" then .defined
           else .kw p.2
         | none => if sources.contains w then .source w else .ident w
       next word rest (tok :: acc)
@@ -310,28 +312,30 @@ def prB (L : Levels) : Nat → BExpr → List Tok
     .lnot :: (match b with
       | .bin o l r => paren (prB L 0 (.bin o l r))
       | b' => prB L 0 b')
-  | _, .defined x => [.kw "DEFINED", .lparen, .ident x, .rparen]
+  | _, .defined x => [.defined, .lparen, .ident x, .rparen]
 
 /-! ### Reference parser (precedence climbing; `fuel` bounds the recursion depth) -/
 
 mutual
 def parsePrimary (L : Levels) : Nat → List Tok → Option (Expr × List Tok)
   | 0, _ => none
-  | _ + 1, .num n :: ts => some (.lit n, ts)
-  | _ + 1, .ident x :: ts => some (.var x, ts)
-  | f + 1, .lparen :: ts =>
-    match parseExpr L f 0 ts with
-    | some (e, .rparen :: ts') => some (e, ts')
+  | f + 1, ts =>
+    match ts with
+    | .num n :: ts' => some (.lit n, ts')
+    | .ident x :: ts' => some (.var x, ts')
+    | .lparen :: ts' =>
+      (match parseExpr L f 0 ts' with
+       | some (e, .rparen :: ts'') => some (e, ts'')
+       | _ => none)
+    | .op .sub :: ts' =>
+      (match parseExpr L f (L.neg + 1) ts' with
+       | some (e, ts'') => some (.neg e, ts'')
+       | none => none)
+    | .op .add :: ts' =>
+      (match parseExpr L f (L.pos + 1) ts' with
+       | some (e, ts'') => some (.pos e, ts'')
+       | none => none)
     | _ => none
-  | f + 1, .op .sub :: ts =>
-    match parseExpr L f (L.neg + 1) ts with
-    | some (e, ts') => some (.neg e, ts')
-    | none => none
-  | f + 1, .op .add :: ts =>
-    match parseExpr L f (L.pos + 1) ts with
-    | some (e, ts') => some (.pos e, ts')
-    | none => none
-  | _ + 1, _ => none
 
 def parseExpr (L : Levels) : Nat → Nat → List Tok → Option (Expr × List Tok)
   | 0, _, _ => none
@@ -342,39 +346,48 @@ def parseExpr (L : Levels) : Nat → Nat → List Tok → Option (Expr × List T
 
 def parseLoop (L : Levels) : Nat → Nat → Expr → List Tok → Option (Expr × List Tok)
   | 0, _, _, _ => none
-  | f + 1, m, l, .op o :: ts =>
-    if m ≤ L.bin o then
-      match parseExpr L f (L.bin o + 1) ts with
-      | some (r, ts') => parseLoop L f m (.bin o l r) ts'
-      | none => none
-    else some (l, .op o :: ts)
-  | f + 1, m, l, .dot :: .isize s :: ts =>
-    if m = 0 then parseLoop L f m (.size s l) ts else some (l, .dot :: .isize s :: ts)
-  | _ + 1, _, l, ts => some (l, ts)
+  | f + 1, m, l, ts =>
+    match ts with
+    | .op o :: ts' =>
+      if m ≤ L.bin o then
+        (match parseExpr L f (L.bin o + 1) ts' with
+         | some (r, ts'') => parseLoop L f m (.bin o l r) ts''
+         | none => none)
+      else some (l, ts)
+    | .dot :: .isize s :: ts' =>
+      if m = 0 then parseLoop L f m (.size s l) ts' else some (l, ts)
+    | _ => some (l, ts)
 end
 
 mutual
 def parsePrimaryB (L : Levels) : Nat → List Tok → Option (BExpr × List Tok)
   | 0, _ => none
-  | f + 1, .lnot :: ts =>
-    match parsePrimaryB L f ts with
-    | some (b, ts') => some (.lnot b, ts')
-    | none => none
-  | _ + 1, .kw "DEFINED" :: .lparen :: .ident x :: .rparen :: ts => some (.defined x, ts)
-  | f + 1, .lparen :: ts =>
-    -- `( bool_expr )`; when the content is a plain `expr` the parenthesis is an `expr` primary and the
-    -- expression may continue (`(1+2)*3 < 4`)
-    match parseB L f 0 ts with
-    | some (.atom e, .rparen :: ts') =>
-      (match parseLoop L f 0 e ts' with
-       | some (e', ts'') => some (.atom e', ts'')
-       | none => none)
-    | some (b, .rparen :: ts') => some (b, ts')
-    | _ => none
   | f + 1, ts =>
-    match parseExpr L f 0 ts with
-    | some (e, ts') => some (.atom e, ts')
-    | none => none
+    match ts with
+    | .lnot :: ts' =>
+      (match parsePrimaryB L f ts' with
+       | some (b, ts'') => some (.lnot b, ts'')
+       | none => none)
+    | .defined :: ts' =>
+      (match ts' with
+       | .lparen :: .ident x :: .rparen :: ts'' => some (.defined x, ts'')
+       | _ => none)
+    | .lparen :: ts' =>
+      -- `( bool_expr )`; when the content is a plain `expr` the parenthesis is an `expr` primary and the
+      -- expression may continue (`(1+2)*3 < 4`)
+      (match parseB L f 0 ts' with
+       | some (b, .rparen :: ts'') =>
+         (match b with
+          | .atom e =>
+            (match parseLoop L f 0 e ts'' with
+             | some (e', ts3) => some (.atom e', ts3)
+             | none => none)
+          | _ => some (b, ts''))
+       | _ => none)
+    | _ =>
+      (match parseExpr L f 0 ts with
+       | some (e, ts') => some (.atom e, ts')
+       | none => none)
 
 def parseB (L : Levels) : Nat → Nat → List Tok → Option (BExpr × List Tok)
   | 0, _, _ => none
@@ -385,13 +398,15 @@ def parseB (L : Levels) : Nat → Nat → List Tok → Option (BExpr × List Tok
 
 def parseLoopB (L : Levels) : Nat → Nat → BExpr → List Tok → Option (BExpr × List Tok)
   | 0, _, _, _ => none
-  | f + 1, m, l, .cmp o :: ts =>
-    if m ≤ L.cmp o then
-      match parseB L f (L.cmp o + 1) ts with
-      | some (r, ts') => parseLoopB L f m (.bin o l r) ts'
-      | none => none
-    else some (l, .cmp o :: ts)
-  | _ + 1, _, l, ts => some (l, ts)
+  | f + 1, m, l, ts =>
+    match ts with
+    | .cmp o :: ts' =>
+      if m ≤ L.cmp o then
+        (match parseB L f (L.cmp o + 1) ts' with
+         | some (r, ts'') => parseLoopB L f m (.bin o l r) ts''
+         | none => none)
+      else some (l, ts)
+    | _ => some (l, ts)
 end
 
 /-- fuel that always suffices (Proofs/Bd.lean: `parseExpr_fuel`) -/
@@ -487,6 +502,16 @@ def liftPy {α} : PyRes α → Except EvalErr α
 def evalBoolText (sources : List String) (vars : Vars) (text : String) : Except EvalErr Val :=
   match lex sources text with
   | .error _ => .error (.py .other)
+  | .ok ts =>
+    match refParseB genLevels ts with
+    | .error _ => .error .syntax
+    | .ok b => liftPy (evalB vars b)
+
+/-- `const_expr` text → value: a single STRING_LITERAL, or a `bool_expr` -/
+def evalConstText (sources : List String) (vars : Vars) (text : String) : Except EvalErr Val :=
+  match lex sources text with
+  | .error _ => .error (.py .other)
+  | .ok [.str s] => .ok (.sym s)
   | .ok ts =>
     match refParseB genLevels ts with
     | .error _ => .error .syntax
